@@ -287,7 +287,7 @@ func runC44(c *core.Ctx) {
 			if fn == nil {
 				return
 			}
-			ops := eng.CodecSeq(fn)
+			ops := eng.CodecSeqInline(fn)
 			if i == 0 {
 				first = ops
 			}
@@ -499,10 +499,16 @@ func runC44(c *core.Ctx) {
 					}
 				}
 			}
-			nvb := len(ir.Calls(des, func(ci ssa.CallInstruction) bool {
-				o := ir.CalleeObj(ci)
-				return o != nil && o.Name() == "NextVarBytes"
-			}))
+			// reads: in Deserialize or in a same-package helper it hands its source to
+			nvb := 0
+			desHosts, releaseDes := hostsWithHelpers(des)
+			for _, h := range desHosts {
+				nvb += len(ir.Calls(h, func(ci ssa.CallInstruction) bool {
+					o := ir.CalleeObj(ci)
+					return o != nil && o.Name() == "NextVarBytes"
+				}))
+			}
+			releaseDes()
 			nwb := len(ir.Calls(ser, func(ci ssa.CallInstruction) bool {
 				o := ir.CalleeObj(ci)
 				return o != nil && o.Name() == "WriteVarBytes"
